@@ -130,6 +130,11 @@ def run(run, binfo):
     n = 4000 if tier == 'quick' else 80000
     gens = [gen_case(rng) for _ in range(n)]
     gens += list(literal_scope())
+    # list members equal as Python values (1 == True == 1.0) are different as text
+    for lst in ([1, True], [True, 1], [1, 1.0], [1.0, 1], [0, False], [False, 0, 0.0], [1, True, 1.0, '1'], ['x', 'x', 1]):
+        for rhs in ('1', 'True', '1.0', '0', 'False', '0.0', 'x'):
+            gens.append(('flags', [('lit', rhs)], {}, {'flags': lst}))
+            gens.append(('a.flags', [('hole', 't')], {'t': rhs}, {'a': {'flags': lst}}))
     # credential attributes whose names look like secrets (the debug dump masks such values in ITS copy)
     for kind, creds in (('auth_token', {'auth_token': 'tv'}), ('user.password_expires_at', {'user': {'password_expires_at': 'tv'}}),
                         ('token.secrets.id', {'token': {'secrets': {'id': 'tv'}}}), ('x_password', {'x_password': 'tv'})):
